@@ -20,7 +20,7 @@ import re
 
 PROPS = ['C04']
 
-PRELUDE = "From RV Require Import Model.Base Model.StylePrims.\nLocal Open Scope Q_scope.\n"
+PRELUDE = "From Coq Require Import String.\nFrom RV Require Import Model.Base Model.StylePrims.\nLocal Open Scope Q_scope.\nLocal Open Scope string_scope.\n"
 
 UNIT_PATHS = {'Unit::None': 'U_None', 'Unit::Px': 'U_Px', 'Unit::Em': 'U_Em', 'Unit::Ex': 'U_Ex', 'Unit::In': 'U_In',
               'Unit::Cm': 'U_Cm', 'Unit::Mm': 'U_Mm', 'Unit::Pt': 'U_Pt', 'Unit::Pc': 'U_Pc', 'Unit::Percent': 'U_Percent'}
@@ -290,5 +290,19 @@ def generate(api):
              code, "convert_rect width/height guards")
         return d1 + "\n" + d2
     section('convert_rect radii', 'crates/usvg/src/parser/shapes.rs', g_radii)
+
+    # ---------------------------------------------------------------- svgtree: which attributes resolve the `inherit` keyword
+    def g_inherit(src):
+        m = re.search(r"fn\s+allows_inherit_value\(&self\)\s*->\s*bool\s*\{\s*matches!\(\s*self,(.*?)\)\s*\}", src, re.S)
+        if not m:
+            raise api.Unsupported("anchor not found: allows_inherit_value table")
+        names = re.findall(r"AId::(\w+)", m.group(1))
+        if not names:
+            raise api.Unsupported("allows_inherit_value: empty table")
+        parse = api.rd('crates/usvg/src/parser/svgtree/parse.rs')
+        need(api, r"if\s+aid\.allows_inherit_value\(\)\s*&&\s*&\*value\s*==\s*\"inherit\"\s*\{", parse,
+             "parse.rs: `inherit` is resolved exactly for the attributes of the table")
+        return ("Definition allows_inherit_value_list : list string :=\n  [%s]." % "; ".join('"%s"' % n for n in names))
+    section('allows_inherit_value', 'crates/usvg/src/parser/svgtree/mod.rs', g_inherit)
 
     api.write_gen('LeafStyle.v', "\n".join(out))
